@@ -24,7 +24,7 @@ ASSUMPTIONS = ['shadow numpy interpreter is the reference (self-tested; cross-ch
                'programs whose simplification does not terminate are C01 events and are skipped here (counted)',
                'maxprocs>1 configurations only for programs with an outer loop, sampled']
 BUDGET_S = {'quick': 120, 'thorough': 1600}
-NCASES = {'quick': 1500, 'thorough': 60000}
+NCASES = {'quick': 1500, 'thorough': 48000}
 CHUNK = 40
 
 # (name, simplify, optimize, cache, stats, nprocs, debug_evalf, ncalls)
